@@ -35,6 +35,10 @@ type mcase struct {
 	NeedsLocked int    // needs that many sub-allocations in the victim's ledger channel
 	NeedsSubs   int    // needs that many sub-channels
 	OnlyAt      string // only at history points with this prefix
+	// "own" family: the message answers a request of the victim itself
+	Own       string   // kind of the victim's request: ledger | sub | virtual | update
+	OwnHonest bool     // control: the request reaches the real M, which answers honestly (nothing is injected)
+	Pts       []string // explicit list of history points
 }
 
 // lockedAt / subsAt: what the history points provide.
@@ -52,6 +56,14 @@ func lockedAt(pt string) int {
 
 func (c *mcase) applies(pt string) bool {
 	if c.OnlyAt != "" && !strings.HasPrefix(pt, c.OnlyAt) {
+		return false
+	}
+	if c.Pts != nil {
+		for _, x := range c.Pts {
+			if x == pt {
+				return true
+			}
+		}
 		return false
 	}
 	switch c.Cat {
@@ -1291,6 +1303,7 @@ func allCases() []mcase {
 	out = append(out, vsettleCases()...)
 	out = append(out, hubCases()...)
 	out = append(out, hubTwoCases()...)
+	out = append(out, ownCases()...)
 	out = append(out, otherCases()...)
 	return out
 }
